@@ -379,6 +379,18 @@ def r2_loaders(ctx) -> None:
     for k_, frag in need.items():
         ctx.ob("C17-R2", f"create_result/{k_}-python-float", frag in txt_, crf, crf.node,
                f"`{k_}` comes from numpy and is converted with float() before it is stored in the result", construct=frag)
+    # the reference written to result.yml is the scheme file written next to it
+    ysr = ctx.fn(YML, "YmlProjectIo.save_result")
+    cfy = lib.cfg(ysr)
+    sch = [s_ for t_, s_ in lib.stores(ysr) if norm(t_) == "result.scheme.source_path"]
+    asd = [lib.stmt_of(c) for c in lib.calls(ysr) if norm(c.func) == "asdict"]
+    svs = [lib.stmt_of(c) for c in lib.calls(ysr) if norm(c.func) == "save_scheme"]
+    ok = len(sch) == 1 and bool(asd) and bool(svs) and norm(sch[0].value) in ("scheme.source_path", "scheme_path.as_posix()") \
+        and all(cfy.dominates(sch[0], a) and sch[0].lineno < a.lineno for a in asd) and all(cfy.dominates(sv, sch[0]) for sv in svs)
+    ctx.ob("C17-R2", "YmlProjectIo.save_result/scheme-reference-is-the-written-file", ok, ysr, sch[0] if sch else (asd[0] if asd else ysr.node),
+           "a *copy* of the scheme is written to scheme.yml; result.yml takes its reference from result.scheme.source_path, which must be "
+           "set to the written file before asdict(result) - otherwise a scheme loaded from elsewhere leaves `scheme: ../proj/s.yml` in the folder",
+           construct=lib.short(sch[0], 100) if sch else "def save_result")
     sr = ctx.fn(FLD, "FolderProjectIo.save_result")
     pcalls = [c for c in lib.calls(sr) if norm(c.func) == "save_parameters"]
     ctx.sites("C17-R2", "parameter files written by the folder plugin", len(pcalls), 2)
